@@ -146,6 +146,47 @@ func runSeq(seq []frag, sizes map[uint32]int, chunks int) (msg string, deliverie
 	return "", deliveries
 }
 
+// endurance: one reassembler with the IPv4 endpoint's limits, as long-lived as an
+// interface is: complete datagrams keep arriving until their cumulative size has passed
+// the memory thresholds several times over. Nothing is ever left behind by a completed
+// datagram, so each of them must be handed up - the first as well as the last.
+func endurance() {
+	f := fragmentation.NewFragmentation(fragmentation.HighFragThreshold, fragmentation.LowFragThreshold, fragmentation.DefaultReassembleTimeout)
+	r := fw.NewRand(run.Seed, "C08", "endurance")
+	n := fw.N(2600, 40000) // x ~4-8 KiB: 3-5 times HighFragThreshold in the quick tier
+	total := 0
+	for d := 0; d < n; d++ {
+		key := uint32(0x10000 + d)
+		size := 8 * (400 + r.Intn(600))
+		cuts := []int{0, 8 * (1 + r.Intn(size/16)), 8 * (size/16 + 1 + r.Intn(size/16-1)), size}
+		order := r.Perm(3)
+		delivered := false
+		for j, i := range order {
+			fr := frag{Key: key, Off: cuts[i], End: cuts[i+1], More: i != 2}
+			vv, done := f.Process(fr.Key, uint16(fr.Off), uint16(fr.End-1), fr.More, fragView(fr, 1+r.Intn(3)))
+			if done != (j == 2) {
+				run.Violation("C08/endurance/delivery", fmt.Sprintf("datagram #%d of a long-lived reassembler (%d bytes in 3 fragments, %d bytes reassembled before it): after fragment %d of 3 delivered=%v", d, size, total, j+1, done), map[string]interface{}{"datagram": d, "size": size, "reassembled_before": total})
+				return
+			}
+			if done {
+				delivered = true
+				if got := vv.ToView(); !bytes.Equal(got, cachedOriginal(key, 65536)[:size]) {
+					run.Violation("C08/endurance/content", fmt.Sprintf("datagram #%d of a long-lived reassembler: %d bytes handed up differ from the original %d bytes", d, len(got), size), map[string]interface{}{"datagram": d})
+					return
+				}
+			}
+		}
+		if delivered {
+			total += size
+		}
+		origCache.Delete([2]uint32{key, 65536})
+	}
+	run.AddEvals(int64(n))
+	run.Count("endurance_datagrams_reassembled_by_one_instance", int64(n))
+	run.Count("endurance_bytes_reassembled_by_one_instance", int64(total))
+	run.Distinct(fw.Hash("endurance"))
+}
+
 func firstDiff(a, b []byte) int {
 	for i := 0; i < len(a) && i < len(b); i++ {
 		if a[i] != b[i] {
@@ -582,6 +623,7 @@ func TestC08(t *testing.T) {
 	}
 	exhaustive()
 	random()
+	endurance()
 	var wg sync.WaitGroup
 	wg.Add(2)
 	go func() {
